@@ -508,6 +508,13 @@ theorem credit_value_roundtrip (c : Model.TxmgrCodec.CreditValB) (h : c.WF) (ext
     (c.spent = false → Model.TxmgrCodec.valueUnspentCredit c = .ok (enc45 c)) :=
   ⟨readCreditValue_enc45 c h ext, fun hs => valueUnspentCredit_eq c hs h.2.2⟩
 
+/-- spendCredit's value rewrite IS the codec's spent form: the 45 bytes of an unspent well-formed credit become the
+    121 bytes `enc45 {c with spent := true} ++ keyDebit spender` (spent bit set in place, spender's debit key appended) -/
+theorem spend_credit_value (c : Model.TxmgrCodec.CreditValB) (h : c.WF) (hs : c.spent = false)
+    (dk : Model.TxmgrCodec.CredKeyB) (hd : dk.WFd = true) :
+    Model.TxmgrCodec.spendCreditValue (enc45 c) dk = .ok (enc45 { c with spent := true } ++ Model.TxmgrCodec.keyDebit dk) :=
+  spendCreditValue_enc45 c h hs dk hd
+
 /-- the one height whose 8-byte key is the name "syncedto" of the cursor in the same bucket (≈ 8.3·10^18): the
     hypothesis `keySynced h ≠ syncedToKey` of the sync-bucket lemmas is necessary -/
 theorem syncedto_key_collision : Model.TxmgrCodec.keySynced 0x73796e636564746f = syncedToKey :=
